@@ -63,6 +63,20 @@ def gen_case(rng, name):
         c = M.method_case(rng, name)
         if name == "topsis":
             c["method"]["metric"] = rng.choice(METRICS)
+        if name in ("wsm", "ratio") and rng.random() < 0.1:
+            # many criteria (8 .. 24), a handful of alternatives, the last one an exact copy of the first and the second
+            # a dominated copy of it: wide matrices go through other code paths of the linear algebra underneath
+            m_, n_ = rng.randint(8, 24), rng.randint(5, 10)
+            objs = [1] * m_ if name == "wsm" else [rng.choice([1, 1, -1]) for _ in range(m_)]
+            mtx = [[rng.uniform(0.5, 9.5) for _ in range(m_)] for _ in range(n_)]
+            mtx[1] = [x - 0.25 if o == 1 else x + 0.25 for x, o in zip(mtx[0], objs)]
+            mtx[-1] = list(mtx[0])
+            ws = rng.sample(range(1, 4 * m_), m_)
+            c.update(matrix=mtx, objectives=objs, weights=[w / 8.0 for w in ws],
+                     alternatives=[f"A{i}" for i in range(n_)], criteria=[f"K{j}" for j in range(m_)],
+                     mode="float", tags=["dup", "dominated_copy", "wide"])
+            c.pop("dtypes", None)
+            return c
         if c["tags"] and len(set(c["weights"])) == len(c["weights"]):
             return c
     return c
